@@ -292,7 +292,8 @@ class WKCResource(Resource):
                 filters.append(
                     lambda link: any(
                         matchexp(part)
-                        for part in (" ".join(_attribute_values(link, k))).split(" ")
+                        for value in _attribute_values(link, k)
+                        for part in value.split(" ")
                     )
                 )
             elif k in ("href",):  # x.href is single valued
